@@ -4,8 +4,7 @@ from . import kernel, whomay
 def check(ctx):
     kernel.run_tables(ctx, 'C01', [
         ('Environment', '__init__'), ('Environment', 'schedule'), ('Environment', 'step'), ('Environment', 'peek'),
-        ('Environment', 'run'), ('Timeout', '__init__'), ('Initialize', '__init__'), ('Interruption', '__init__'),
-        ('Event', 'trigger'), ('Event', 'succeed'), ('Event', 'fail'), ('Process', '_resume'), ('Process', '__init__'),
+        ('Timeout', '__init__'), ('Initialize', '__init__'), ('Interruption', '__init__'),
     ])
     whomay.kernel_state_writers(ctx, 'C01')
     whomay.schedule_sites(ctx, 'C01')
